@@ -608,6 +608,9 @@ impl CcBox<()> {
 
     #[inline(never)] // Don't inline this function, it's huge
     fn trace(ptr: NonNull<Self>, ctx: &mut Context<'_>) {
+        #[cfg(feature = "verif")]
+        crate::verif::record_trace_report(ptr);
+
         let counter_marker = unsafe { ptr.as_ref() }.counter_marker();
         match ctx.inner() {
             ContextInner::Counting {
